@@ -3,6 +3,9 @@
 set -e
 cd "$(dirname "$0")"
 sh ../mkproject.sh
+# the extraction needs every Base/Gen/Spec/Model .vo to be current
+[ -f ../translate/tables.py ] && python3 ../translate/tables.py "${GV_REPO:-/repo}" ../coq/Gen >/dev/null 2>&1 || true
+( cd ../coq && { [ -f Makefile ] && [ Makefile -nt _CoqProject ] || coq_makefile -f _CoqProject -o Makefile >/dev/null; } && make -j8 models >/dev/null 2>&1 ) || { echo "make models failed" >&2; exit 1; }
 python3 ../translate/errnames.py ../coq/Base/Res.v errnames.ml
 mkdir -p extracted _build
 ( cd extracted && rm -f *.ml *.mli && coqc -Q ../../coq GV ../../coq/Extract/Extract.v >/dev/null )
